@@ -66,6 +66,13 @@ func OtherSeg(rt *rapid.T, label string) Seg {
 		for len(p) < 40 {
 			p = append(p, 'z')
 		}
+		// a near miss must stay a miss whatever the random bytes are
+		if string(p[:6]) == ExifPrefix {
+			p[5] = 0x01
+		}
+		if string(p[:29]) == XMPPrefix {
+			p[28] = 0x01
+		}
 		return Seg{Marker: 0xE1, Payload: p, Kind: "nearmiss"}
 	case 3:
 		return Seg{Marker: 0xE2, Payload: append([]byte("ICC_PROFILE\x00\x01\x01"), randomPayload(rt, label, 400)...), Kind: "other"}
@@ -109,19 +116,28 @@ func JPEGTail(rt *rapid.T) []byte {
 	return append(t, 0xFF, 0xD9)
 }
 
-// JPEGWith embeds a TIFF payload as APP1-Exif among random segments.
-func JPEGWith(rt *rapid.T, payload []byte) []byte {
-	var segs []Seg
+// JPEGWrap draws the surroundings once and returns a function embedding any
+// TIFF payload as APP1-Exif among the same random segments.
+func JPEGWrap(rt *rapid.T) func(payload []byte) []byte {
+	var before, after []Seg
 	for i, n := 0, rapid.IntRange(0, 3).Draw(rt, "jpeg.before"); i < n; i++ {
-		segs = append(segs, OtherSeg(rt, "jpeg.b"))
+		before = append(before, OtherSeg(rt, "jpeg.b"))
 	}
-	segs = append(segs, Seg{Marker: 0xE1, Payload: append([]byte(ExifPrefix), payload...), Kind: "exif"})
 	for i, n := 0, rapid.IntRange(0, 3).Draw(rt, "jpeg.after"); i < n; i++ {
-		segs = append(segs, OtherSeg(rt, "jpeg.a"))
+		after = append(after, OtherSeg(rt, "jpeg.a"))
 	}
-	segs = append(segs, DQT())
-	return JPEGStream(segs, JPEGTail(rt))
+	tail := JPEGTail(rt)
+	return func(payload []byte) []byte {
+		segs := append([]Seg{}, before...)
+		segs = append(segs, Seg{Marker: 0xE1, Payload: append([]byte(ExifPrefix), payload...), Kind: "exif"})
+		segs = append(segs, after...)
+		segs = append(segs, DQT())
+		return JPEGStream(segs, tail)
+	}
 }
+
+// JPEGWith embeds a TIFF payload as APP1-Exif among random segments.
+func JPEGWith(rt *rapid.T, payload []byte) []byte { return JPEGWrap(rt)(payload) }
 
 // ----------------------------------------------------------------- PNG -------
 
@@ -136,31 +152,38 @@ func pngChunk(typ string, data []byte) []byte {
 	return append(out, c[:]...)
 }
 
-// PNGWith embeds a TIFF payload as an eXIf chunk among other chunks.
-func PNGWith(rt *rapid.T, payload []byte) []byte {
-	out := []byte("\x89PNG\r\n\x1a\n")
-	out = append(out, pngChunk("IHDR", []byte{0, 0, 0, 16, 0, 0, 0, 16, 8, 2, 0, 0, 0})...)
-	other := func(label string) {
+// PNGWrap draws the surrounding chunks once.
+func PNGWrap(rt *rapid.T) func(payload []byte) []byte {
+	head := []byte("\x89PNG\r\n\x1a\n")
+	head = append(head, pngChunk("IHDR", []byte{0, 0, 0, 16, 0, 0, 0, 16, 8, 2, 0, 0, 0})...)
+	other := func(label string) []byte {
+		var out []byte
 		for i, n := 0, rapid.IntRange(0, 3).Draw(rt, label+".n"); i < n; i++ {
 			typ := rapid.SampledFrom([]string{"tEXt", "gAMA", "pHYs", "iTXt", "zTXt", "sBIT", "tIME", "prVt"}).Draw(rt, label+".type")
 			out = append(out, pngChunk(typ, rapid.SliceOfN(rapid.Byte(), 0, 300).Draw(rt, label+".data"))...)
 		}
+		return out
 	}
-	idat := func() {
-		out = append(out, pngChunk("IDAT", rapid.SliceOfN(rapid.Byte(), 1, 200).Draw(rt, "png.idat"))...)
+	idat := pngChunk("IDAT", rapid.SliceOfN(rapid.Byte(), 1, 200).Draw(rt, "png.idat"))
+	b, a := other("png.b"), other("png.a")
+	afterIDAT := rapid.Bool().Draw(rt, "png.exifAfterIDAT")
+	return func(payload []byte) []byte {
+		out := append([]byte{}, head...)
+		out = append(out, b...)
+		if afterIDAT {
+			out = append(out, idat...)
+		}
+		out = append(out, pngChunk("eXIf", payload)...)
+		out = append(out, a...)
+		if !afterIDAT {
+			out = append(out, idat...)
+		}
+		return append(out, pngChunk("IEND", nil)...)
 	}
-	other("png.b")
-	after := rapid.Bool().Draw(rt, "png.exifAfterIDAT")
-	if after {
-		idat()
-	}
-	out = append(out, pngChunk("eXIf", payload)...)
-	other("png.a")
-	if !after {
-		idat()
-	}
-	return append(out, pngChunk("IEND", nil)...)
 }
+
+// PNGWith embeds a TIFF payload as an eXIf chunk among other chunks.
+func PNGWith(rt *rapid.T, payload []byte) []byte { return PNGWrap(rt)(payload) }
 
 // ------------------------------------------------------------- ISOBMFF -------
 
@@ -252,101 +275,132 @@ func scrubSig(d []byte) {
 	}
 }
 
-// CR3With embeds TIFF payloads in the CMT boxes of a Canon CR3 file.
-// cmt[0] = IFD0 block (CMT1), cmt[1] = Exif block (CMT2), cmt[2] = maker note (CMT3), cmt[3] = GPS block (CMT4); nil = absent.
-func CR3With(rt *rapid.T, cmt [4][]byte) ([]byte, *Box) {
-	canon := &Box{Type: "uuid", Data: append([]byte{}, UUIDCanon...)}
-	add := func(b *Box) { canon.Kids = append(canon.Kids, b) }
-	cncv := make([]byte, 30)
-	copy(cncv, "CanonCR3_001/00.09.00/00.00.00")
-	add(&Box{Type: "CNCV", Data: cncv})
-	if rapid.Bool().Draw(rt, "cr3.cctp") {
-		add(fillerBox(rt, "cr3.f1"))
+// CR3Wrap draws the box tree of a Canon CR3 file once; the returned function
+// embeds TIFF payloads in its CMT boxes: cmt[0] = IFD0 block (CMT1), cmt[1] =
+// Exif block (CMT2), cmt[2] = maker note (CMT3), cmt[3] = GPS block (CMT4); nil = absent.
+func CR3Wrap(rt *rapid.T) func(cmt [4][]byte) ([]byte, *Box) {
+	cctp := rapid.Bool().Draw(rt, "cr3.cctp")
+	var f1 *Box
+	if cctp {
+		f1 = fillerBox(rt, "cr3.f1")
 	}
-	ctbo := make([]byte, 4+20*4)
-	binary.BigEndian.PutUint32(ctbo, 4)
-	for i := 0; i < 4; i++ {
-		binary.BigEndian.PutUint32(ctbo[4+20*i:], uint32(i+1))
-		binary.BigEndian.PutUint64(ctbo[8+20*i:], uint64(1000*(i+1)))
-		binary.BigEndian.PutUint64(ctbo[16+20*i:], uint64(100*(i+1)))
-	}
-	add(&Box{Type: "CTBO", Data: ctbo})
-	for i, name := range []string{"CMT1", "CMT2", "CMT3", "CMT4"} {
-		if cmt[i] != nil {
-			add(&Box{Type: name, Data: cmt[i]})
-		}
+	var mids [4]*Box
+	for i := range mids {
 		if Chance(rt, "cr3.mid", 0.2) {
-			add(fillerBox(rt, "cr3.fm"))
+			mids[i] = fillerBox(rt, "cr3.fm")
 		}
 	}
-	moov := &Box{Type: "moov", Kids: []*Box{canon}}
-	if rapid.Bool().Draw(rt, "cr3.mvhd") {
-		moov.Kids = append(moov.Kids, &Box{Type: "mvhd", Full: true, Data: make([]byte, 96)})
-	}
-	for i, n := 0, rapid.IntRange(0, 2).Draw(rt, "cr3.traks"); i < n; i++ {
-		moov.Kids = append(moov.Kids, &Box{Type: "trak", Kids: []*Box{{Type: "tkhd", Full: true, Data: make([]byte, 80)}}})
-	}
-	if Chance(rt, "cr3.canonLast", 0.3) { // uuid after the other moov children
-		moov.Kids = append(moov.Kids[1:], moov.Kids[0])
-	}
-	top := []*Box{Ftyp("crx ", 1, "crx ", "isom"), moov}
-	top = append(top, &Box{Type: "mdat", Data: rapid.SliceOfN(rapid.Byte(), 64, 300).Draw(rt, "cr3.mdat")})
-	var out []byte
-	root := &Box{Type: "file", Kids: top}
-	for _, b := range top {
-		out = append(out, b.Serialise(len(out))...)
-	}
-	return out, root
-}
-
-// HEIFWith embeds a TIFF payload the way HEIF stores Exif: an item in mdat
-// holding exif_tiff_header_offset, "Exif\0\0" and the TIFF block.
-func HEIFWith(rt *rapid.T, payload []byte) []byte {
-	brand := rapid.SampledFrom([][]string{{"heic", "mif1", "heic"}, {"heix", "mif1", "heix"}, {"mif1", "mif1", "heic"}, {"mif1", "heic", "miaf"}}).Draw(rt, "heif.brand")
-	ft := Ftyp(brand[0], 0, brand[1], brand[2])
-	hdlr := &Box{Type: "hdlr", Full: true, Data: append(append(make([]byte, 4), []byte("pict")...), make([]byte, 13)...)}
-	pitm := &Box{Type: "pitm", Full: true, Data: []byte{0, 1}}
-	infe := func(id uint16, typ string) *Box {
-		d := []byte{byte(id >> 8), byte(id), 0, 0}
-		d = append(d, typ...)
-		d = append(d, 0)
-		return &Box{Type: "infe", Full: true, VerFlags: 2 << 24, Data: d}
-	}
-	iinf := &Box{Type: "iinf", Full: true, Data: []byte{0, 2}, Kids: []*Box{infe(1, "hvc1"), infe(2, "Exif")}}
-	meta := &Box{Type: "meta", Full: true, Kids: []*Box{hdlr, pitm, iinf}}
-	item := []byte{0, 0, 0, 6}
-	item = append(item, ExifPrefix...)
-	item = append(item, payload...)
-	pre := rapid.SliceOfN(rapid.Byte(), 0, 120).Draw(rt, "heif.mdatpre")
-	scrubSig(pre)
-	mdat := &Box{Type: "mdat", Data: append(append(pre, item...), rapid.SliceOfN(rapid.Byte(), 32, 200).Draw(rt, "heif.mdatpost")...)}
-	// iloc with one extent for item 2 (offset filled after layout)
-	iloc := &Box{Type: "iloc", Full: true, Data: make([]byte, 2+2+2+2+2+4+4)}
-	meta.Kids = append(meta.Kids, iloc)
-	var top []*Box
-	top = append(top, ft, meta)
-	if rapid.Bool().Draw(rt, "heif.free") {
-		top = append(top, fillerBox(rt, "heif.f"))
-	}
-	top = append(top, mdat)
-	serial := func() []byte {
+	mvhd := rapid.Bool().Draw(rt, "cr3.mvhd")
+	traks := rapid.IntRange(0, 2).Draw(rt, "cr3.traks")
+	canonLast := Chance(rt, "cr3.canonLast", 0.3)
+	mdat := rapid.SliceOfN(rapid.Byte(), 64, 300).Draw(rt, "cr3.mdat")
+	return func(cmt [4][]byte) ([]byte, *Box) {
+		canon := &Box{Type: "uuid", Data: append([]byte{}, UUIDCanon...)}
+		add := func(b *Box) { canon.Kids = append(canon.Kids, b) }
+		cncv := make([]byte, 30)
+		copy(cncv, "CanonCR3_001/00.09.00/00.00.00")
+		add(&Box{Type: "CNCV", Data: cncv})
+		if f1 != nil {
+			add(&Box{Type: f1.Type, Data: f1.Data, Large: f1.Large})
+		}
+		ctbo := make([]byte, 4+20*4)
+		binary.BigEndian.PutUint32(ctbo, 4)
+		for i := 0; i < 4; i++ {
+			binary.BigEndian.PutUint32(ctbo[4+20*i:], uint32(i+1))
+			binary.BigEndian.PutUint64(ctbo[8+20*i:], uint64(1000*(i+1)))
+			binary.BigEndian.PutUint64(ctbo[16+20*i:], uint64(100*(i+1)))
+		}
+		add(&Box{Type: "CTBO", Data: ctbo})
+		for i, name := range []string{"CMT1", "CMT2", "CMT3", "CMT4"} {
+			if cmt[i] != nil {
+				add(&Box{Type: name, Data: cmt[i]})
+			}
+			if mids[i] != nil {
+				add(&Box{Type: mids[i].Type, Data: mids[i].Data, Large: mids[i].Large})
+			}
+		}
+		moov := &Box{Type: "moov", Kids: []*Box{canon}}
+		if mvhd {
+			moov.Kids = append(moov.Kids, &Box{Type: "mvhd", Full: true, Data: make([]byte, 96)})
+		}
+		for i := 0; i < traks; i++ {
+			moov.Kids = append(moov.Kids, &Box{Type: "trak", Kids: []*Box{{Type: "tkhd", Full: true, Data: make([]byte, 80)}}})
+		}
+		if canonLast { // uuid after the other moov children
+			moov.Kids = append(moov.Kids[1:], moov.Kids[0])
+		}
+		top := []*Box{Ftyp("crx ", 1, "crx ", "isom"), moov}
+		top = append(top, &Box{Type: "mdat", Data: mdat})
 		var out []byte
+		root := &Box{Type: "file", Kids: top}
 		for _, b := range top {
 			out = append(out, b.Serialise(len(out))...)
 		}
-		return out
+		return out, root
 	}
-	serial()
-	d := iloc.Data
-	d[0], d[1] = 0x44, 0x00 // offset_size 4, length_size 4, base_offset_size 0
-	binary.BigEndian.PutUint16(d[2:], 1)
-	binary.BigEndian.PutUint16(d[4:], 2) // item id
-	binary.BigEndian.PutUint16(d[6:], 0) // data reference index
-	binary.BigEndian.PutUint16(d[8:], 1) // extent count
-	binary.BigEndian.PutUint32(d[10:], uint32(mdat.PayloadStart+len(pre)))
-	binary.BigEndian.PutUint32(d[14:], uint32(len(item)))
-	return serial()
 }
+
+// CR3With embeds TIFF payloads in the CMT boxes of a Canon CR3 file.
+func CR3With(rt *rapid.T, cmt [4][]byte) ([]byte, *Box) { return CR3Wrap(rt)(cmt) }
+
+// HEIFWrap draws the surroundings of a HEIF file once; the returned function
+// embeds a TIFF payload the way HEIF stores Exif: an item in mdat holding
+// exif_tiff_header_offset, "Exif\0\0" and the TIFF block.
+func HEIFWrap(rt *rapid.T) func(payload []byte) []byte {
+	brand := rapid.SampledFrom([][]string{{"heic", "mif1", "heic"}, {"heix", "mif1", "heix"}, {"mif1", "mif1", "heic"}, {"mif1", "heic", "miaf"}}).Draw(rt, "heif.brand")
+	pre := rapid.SliceOfN(rapid.Byte(), 0, 120).Draw(rt, "heif.mdatpre")
+	scrubSig(pre)
+	post := rapid.SliceOfN(rapid.Byte(), 32, 200).Draw(rt, "heif.mdatpost")
+	var free *Box
+	if rapid.Bool().Draw(rt, "heif.free") {
+		free = fillerBox(rt, "heif.f")
+	}
+	return func(payload []byte) []byte {
+		ft := Ftyp(brand[0], 0, brand[1], brand[2])
+		hdlr := &Box{Type: "hdlr", Full: true, Data: append(append(make([]byte, 4), []byte("pict")...), make([]byte, 13)...)}
+		pitm := &Box{Type: "pitm", Full: true, Data: []byte{0, 1}}
+		infe := func(id uint16, typ string) *Box {
+			d := []byte{byte(id >> 8), byte(id), 0, 0}
+			d = append(d, typ...)
+			d = append(d, 0)
+			return &Box{Type: "infe", Full: true, VerFlags: 2 << 24, Data: d}
+		}
+		iinf := &Box{Type: "iinf", Full: true, Data: []byte{0, 2}, Kids: []*Box{infe(1, "hvc1"), infe(2, "Exif")}}
+		meta := &Box{Type: "meta", Full: true, Kids: []*Box{hdlr, pitm, iinf}}
+		item := []byte{0, 0, 0, 6}
+		item = append(item, ExifPrefix...)
+		item = append(item, payload...)
+		mdat := &Box{Type: "mdat", Data: append(append(append([]byte{}, pre...), item...), post...)}
+		// iloc with one extent for item 2 (offset filled after layout)
+		iloc := &Box{Type: "iloc", Full: true, Data: make([]byte, 2+2+2+2+2+4+4)}
+		meta.Kids = append(meta.Kids, iloc)
+		top := []*Box{ft, meta}
+		if free != nil {
+			top = append(top, &Box{Type: free.Type, Data: free.Data, Large: free.Large})
+		}
+		top = append(top, mdat)
+		serial := func() []byte {
+			var out []byte
+			for _, b := range top {
+				out = append(out, b.Serialise(len(out))...)
+			}
+			return out
+		}
+		serial()
+		d := iloc.Data
+		d[0], d[1] = 0x44, 0x00 // offset_size 4, length_size 4, base_offset_size 0
+		binary.BigEndian.PutUint16(d[2:], 1)
+		binary.BigEndian.PutUint16(d[4:], 2) // item id
+		binary.BigEndian.PutUint16(d[6:], 0) // data reference index
+		binary.BigEndian.PutUint16(d[8:], 1) // extent count
+		binary.BigEndian.PutUint32(d[10:], uint32(mdat.PayloadStart+len(pre)))
+		binary.BigEndian.PutUint32(d[14:], uint32(len(item)))
+		return serial()
+	}
+}
+
+// HEIFWith embeds a TIFF payload in a HEIF file.
+func HEIFWith(rt *rapid.T, payload []byte) []byte { return HEIFWrap(rt)(payload) }
 
 // BoxTypes are the box types of ISO BMFF / HEIF / Canon CR3 (ISO 14496-12, 23008-12, Canon CR3 notes).
 var BoxTypes = []string{"auxC", "auxl", "av01", "av1C", "avcC", "CCDT", "CCTP", "cdsc", "clap", "CMT1", "CMT2", "CMT3", "CMT4", "CNCV", "co64", "colr",
